@@ -62,16 +62,20 @@ def shortcut_table(repo, fq):
         ops = _op_tests(r, f.node)
         if not ops:
             continue
-        v = r.value
-        alts = [v.body, v.orelse] if isinstance(v, ast.IfExp) else [v]
-        prims = [prim_of_call(a) for a in alts if isinstance(a, ast.Call)]
-        guards = []
+        # one entry per alternative result, whether the choice is written as a conditional expression or as statements
+        def alts(v, extra):
+            if isinstance(v, ast.IfExp):
+                return alts(v.body, extra + [src(v.test)]) + alts(v.orelse, extra + ["not " + src(v.test)])
+            return [(v, extra)]
+        base = []
         for e, pol in atoms_at(r, f.node):
             t = src(e)
             if "safe_eq" in t or "isinstance(op" in t:
                 continue
-            guards.append(("" if pol else "not ") + t)
-        out.append((ops[0], prims, guards, r))
+            base.append(("" if pol else "not ") + t)
+        for v, extra in alts(r.value, []):
+            prims = [prim_of_call(v)] if isinstance(v, ast.Call) else []
+            out.append((ops[0], prims, base + extra, r))
     return out
 
 
